@@ -263,7 +263,18 @@ func stripDigits(s string) string {
 	return s
 }
 
+// canonDepth bounds the recursion of canon: a script can build a value that contains itself
+// (an index-range selection shares storage with its array: {v[1] = v[i:j]}), and the harness's own
+// printer must not die on it (a false alarm of the thorough tier: the death was the harness's).
+var canonDepth int
+
 func canon(s zygo.Sexp, b *strings.Builder) {
+	canonDepth++
+	defer func() { canonDepth-- }()
+	if canonDepth > 60 {
+		b.WriteString("...")
+		return
+	}
 	switch x := s.(type) {
 	case *zygo.SexpSymbol:
 		b.WriteString(stripDigits(x.Name()))
